@@ -1,0 +1,13 @@
+//go:build verif
+
+package ethereum
+
+// Hooks for the runtime monitors in /verif (compiled only with -tags verif).
+
+// VerifPendingCount returns the number of message publications waiting for confirmation.
+// Read-only; used by the monitors to detect quiescence.
+func (w *Watcher) VerifPendingCount() int {
+	w.pendingMu.Lock()
+	defer w.pendingMu.Unlock()
+	return len(w.pending)
+}
